@@ -360,10 +360,7 @@ fn run_op(line: &str) -> R {
         }
         "td.kind" => {
             let s = utf8(arg(1)?)?;
-            Ok(vec![
-                hx(hdwallet::typeddata::verif_hooks::member_kind_roundtrip(&s).as_bytes()),
-                hx(hdwallet::typeddata::verif_hooks::member_kind_debug(&s).as_bytes()),
-            ])
+            Ok(vec![hx(hdwallet::typeddata::verif_hooks::member_kind_roundtrip(&s).as_bytes())])
         }
         "msg.hash" => {
             let b = unhex(arg(1)?)?;
